@@ -997,11 +997,12 @@ func AdoptSession(p Persistence, c *Config) (client *Client, warn []error, fatal
 			txs.Received = txs.Completed
 		} else {
 			txs.Completed = releaseKeys[0] & publishIDMask
-			txs.Received = releaseKeys[len(releaseKeys)-1]&publishIDMask + 1
-			if txs.Received < txs.Completed {
+			lastRelease := releaseKeys[len(releaseKeys)-1] & publishIDMask
+			if lastRelease < txs.Completed {
 				// range overflows address space
-				txs.Received += publishIDMask + 1
+				lastRelease += publishIDMask + 1
 			}
+			txs.Received = lastRelease + 1
 		}
 
 		var last uint
